@@ -62,6 +62,8 @@ def gen(rng, tier):
         # the very first run on freshly built objects keeps "the logs" (there are none yet) and/or the state
         spec["cfg"]["init_log"] = False
         spec["cfg"]["init_state"] = rng.random() < 0.5
+    elif rng.random() < 0.08 and not any(op.get("op") == "reload" for op in ops):
+        spec["model"]["worker_copies"] = True  # workers are shallow copies of one template object
     if rng.random() < 0.1:
         m = spec["model"]
         n0 = len(m["tasks"])
